@@ -66,6 +66,13 @@ struct SimAlloc {
     n_malloc = n_calloc = n_realloc = n_free = n_realloc_moved = n_realloc_live_moved = 0; trace = Fnv();
   }
   MIR_alloc_t alloc() { return &vt; }
+  // tasksim: the used prefix of the arena is inaccessible while the owning task is switched out
+  size_t prot_len = 0;
+  void set_accessible(bool on) {
+    if (!base) return;
+    if (!on) { prot_len = std::min(cap, ((top + (1u << 20)) + 4095) & ~(size_t) 4095); mprotect(base, prot_len, PROT_NONE); }
+    else if (prot_len) { mprotect(base, prot_len, PROT_READ | PROT_WRITE); prot_len = 0; }
+  }
   bool owns(const void *p) const { return base && (const uint8_t *) p >= base && (const uint8_t *) p < base + cap; }
 
   void violate(const char *c, const std::string &s, const std::string &d) { if (!bad) { bad = true; cls = c; sig = s; detail = d; } }
